@@ -47,6 +47,18 @@ More information:
 '013842587609507417181119371'
 >>> encode({'4331': '002500-'})  # temperature with the optional minus sign
 '4331002500-'
+>>> validate('(10)AB\u00e9')  # only printable ASCII in values
+Traceback (most recent call last):
+    ...
+InvalidFormat: ...
+>>> validate('(17)1811')  # pre-defined length values cannot be shorter
+Traceback (most recent call last):
+    ...
+InvalidLength: ...
+>>> validate('(17)18111A')
+Traceback (most recent call last):
+    ...
+InvalidFormat: ...
 >>> validate('(10)~(17)181119', separator='~')  # empty value
 Traceback (most recent call last):
     ...
@@ -59,12 +71,15 @@ import re
 
 from stdnum import numdb
 from stdnum.exceptions import *
-from stdnum.util import clean
+from stdnum.util import clean, isdigits
 
 
 # our open copy of the application identifier database
 _gs1_aidb = numdb.get('gs1_ai')
 
+
+# regular expression for the characters that can be part of a value
+_value_re = re.compile(r'^[\x20-\x7e]*\Z')
 
 # Extra validation modules based on the application identifier
 _ai_validators = {
@@ -218,6 +233,15 @@ def info(number, separator=''):
             if idx > 0:
                 value = number[:idx]
         number = number[len(value):]
+        # values consist of printable ASCII characters only and are not empty
+        if not _value_re.match(value) or not value.strip():
+            raise InvalidFormat()
+        # pre-defined length values are numeric and have a fixed length
+        if not info.get('fnc1', False):
+            if len(value) != _max_length(info['format'], info['type']):
+                raise InvalidLength()
+            if not isdigits(value):
+                raise InvalidFormat()
         # validate the value if we have a custom module for it
         if ai in _ai_validators:
             mod = __import__(_ai_validators[ai], globals(), locals(), ['validate'])
